@@ -324,7 +324,163 @@ func r19RequestedSetOnlySelects(c *core.Ctx) {
 		c.Check(R, "level-dropped-by-own-result-only/"+aps.Name, aps.Decl.Pos(), okDel && nd == 1, "the drop decision reads only the current iteration's ring result and the configuration", "a level is dropped depending on other per-level state")
 	}
 	r19DeepestLevelUses(c)
+	r19DeepestQuantitiesStayInside(c)
 	c.Floor(R, 4)
+}
+
+// r19DeepestQuantitiesStayInside: the deepest level, its pixel count and its pixel size are functions of the
+// *requested set*.  Values computed from them (through arithmetic, conversions and the helper packages) may be
+// stored in the index, used for addresses and carried in error values, but never handed out of package pointindex
+// as a plain result or argument on the snapping call graph: a caller that sees "the pixel size" sees the pixel
+// size of the deepest requested level and starts to behave differently depending on what else was requested.
+func r19DeepestQuantitiesStayInside(c *core.Ctx) {
+	const R = "R19"
+	root := c.P.Funcs["snap.SnapPolygon"]
+	if root == nil || root.SSA == nil {
+		return
+	}
+	reach := core.ReachableNoStdlibTransit(c.P.VTA(), root.SSA)
+	callers := callersIndex(c)
+	tainted := map[ssa.Value]bool{}
+	var work []ssa.Value
+	add := func(v ssa.Value) {
+		if v != nil && !tainted[v] {
+			tainted[v] = true
+			work = append(work, v)
+		}
+	}
+	nSeeds := 0
+	for fn := range reach {
+		if core.ShortPkg(core.FuncPkgPath(fn)) != "pointindex" {
+			continue
+		}
+		for _, b := range fn.Blocks {
+			for _, in := range b.Instrs {
+				switch x := in.(type) {
+				case *ssa.FieldAddr:
+					if n := fieldNameOf(x.X.Type(), x.Field); (n == "deepestLevel" || n == "deepestRes" || n == "deepestSize") && strings.HasSuffix(core.TypeShort(derefType(x.X.Type())), "pointindex.PointIndex") {
+						for _, r := range *x.Referrers() {
+							if u, ok := r.(*ssa.UnOp); ok && u.Op == token.MUL {
+								nSeeds++
+								add(u)
+							}
+						}
+					}
+				case *ssa.Field:
+					if n := fieldNameOf(x.X.Type(), x.Field); (n == "deepestLevel" || n == "deepestRes" || n == "deepestSize") && strings.HasSuffix(core.TypeShort(x.X.Type()), "pointindex.PointIndex") {
+						nSeeds++
+						add(x)
+					}
+				}
+			}
+		}
+	}
+	helperPkg := func(p string) bool {
+		switch core.ShortPkg(p) {
+		case "pointindex", "mathhelp", "intgeom", "morton":
+			return true
+		}
+		return false
+	}
+	bad := ""
+	isErr := func(t types.Type) bool { return types.Identical(t, types.Universe.Lookup("error").Type()) }
+	for len(work) > 0 {
+		v := work[len(work)-1]
+		work = work[:len(work)-1]
+		if v.Referrers() == nil {
+			continue
+		}
+		for _, r := range *v.Referrers() {
+			switch x := r.(type) {
+			case *ssa.BinOp:
+				// a comparison yields a truth value, not a quantity
+				switch x.Op {
+				case token.EQL, token.NEQ, token.LSS, token.LEQ, token.GTR, token.GEQ:
+				default:
+					add(x)
+				}
+			case *ssa.UnOp:
+				if x.Op != token.MUL {
+					add(x)
+				}
+			case *ssa.Convert:
+				add(x)
+			case *ssa.ChangeType:
+				add(x)
+			case *ssa.Phi:
+				add(x)
+			case *ssa.Return:
+				fn := x.Parent()
+				exported := fn.Object() != nil && fn.Object().Exported() && core.ShortPkg(core.FuncPkgPath(fn)) == "pointindex"
+				for i, res := range x.Results {
+					if res != v {
+						continue
+					}
+					if exported && !isErr(fn.Signature.Results().At(i).Type()) {
+						if _, onGraph := reach[fn]; onGraph || true {
+							// only functions snapping can reach, or that package snap calls
+							used := false
+							for _, site := range callers(fn) {
+								if p := core.ShortPkg(core.FuncPkgPath(site.Parent())); p == "snap" || p == "processing" || p == "main" {
+									if _, ok := reach[site.Parent()]; ok {
+										used = true
+									}
+								}
+							}
+							if used {
+								bad += fmt.Sprintf("%s returns a value computed from the deepest requested level to package %s @%s; ", fn.String(), "snap", c.P.Pos(x.Pos()))
+							}
+						}
+						continue
+					}
+					for _, site := range callers(fn) {
+						if val := site.Value(); val != nil {
+							if len(x.Results) == 1 {
+								add(val)
+							} else {
+								for _, rr := range *val.Referrers() {
+									if e, ok := rr.(*ssa.Extract); ok && e.Index == i {
+										add(e)
+									}
+								}
+							}
+						}
+					}
+				}
+			case ssa.CallInstruction:
+				com := x.Common()
+				callee := com.StaticCallee()
+				if callee == nil {
+					continue
+				}
+				pkg := core.FuncPkgPath(callee)
+				switch {
+				case core.IsModPath(pkg) && helperPkg(pkg):
+					if len(callee.Blocks) > 0 {
+						for i, a := range com.Args {
+							if a == v && i < len(callee.Params) {
+								add(callee.Params[i])
+							}
+						}
+					}
+				case core.IsModPath(pkg):
+					bad += fmt.Sprintf("%s passes a value computed from the deepest requested level to %s @%s; ", x.Parent().String(), callee.String(), c.P.Pos(x.Pos()))
+				case pkg == "math":
+					if val := x.Value(); val != nil {
+						add(val)
+					}
+				}
+			}
+		}
+	}
+	c.Check(R, "deepest-quantities-stay-inside-the-index/pointindex", root.Decl.Pos(), bad == "" && nSeeds >= 8, fmt.Sprintf("%d reads of deepestLevel/deepestRes/deepestSize on the snapping call graph; nothing computed from them is handed out of the index packages except inside error values", nSeeds), "a quantity of the deepest *requested* level leaves the index: "+bad+"a caller can now make one tile matrix's result depend on which deeper ones were requested")
+}
+
+func derefType(t types.Type) types.Type {
+	if p, ok := t.Underlying().(*types.Pointer); ok {
+		return p.Elem()
+	}
+	return t
 }
 
 // r19DeepestLevelUses: the index is built at the deepest *requested* level, so ix.deepestLevel is a function of the
